@@ -469,6 +469,9 @@ def loop_shape_facts(numba_t) -> list[tuple[str, str, str]]:
     return [(k, "Bool", lean_bool(v)) for k, v in facts.items()]
 
 
+LOOP_ERRORS: dict = {}
+
+
 def generate() -> dict[str, str]:
     numba_src = (REPO / "groupby_lib/groupby/numba.py").read_text()
     util_src = (REPO / "groupby_lib/util.py").read_text()
@@ -529,6 +532,15 @@ def generate() -> dict[str, str]:
     api_t = ast.parse((REPO / "groupby_lib/groupby/api.py").read_text())
     files["Facade.lean"] = head + facade_facts(api_t)
     files["Dtypes.lean"] = head + dtype_tables(numba_t, numba_src, util_t, util_src, sf_names)
+    # ---- the loop kernels themselves (tools/translate_loops.py) ----
+    import translate_loops
+    fact_t = ast.parse((REPO / "groupby_lib/groupby/factorization.py").read_text())
+    nanops_t = ast.parse((REPO / "groupby_lib/nanops.py").read_text())
+    loops_txt, loop_errors = translate_loops.generate_loops(
+        {"numba": numba_t, "core": core_t, "emas": emas_t, "fact": fact_t, "nanops": nanops_t, "util": util_t})
+    files["Loops.lean"] = head + loops_txt
+    global LOOP_ERRORS
+    LOOP_ERRORS = loop_errors
     body = "\n".join(f"def {n} : {t} := {v}" for n, t, v in consts)
     files["Constants.lean"] = head + "\nnamespace GV.Generated.Constants\n\n" + body + "\n\nend GV.Generated.Constants\n"
     return files
@@ -550,7 +562,8 @@ def main() -> int:
             os.replace(tmp, p)
             changed.append(name)
     digest = hashlib.sha256("".join(files[k] for k in sorted(files)).encode()).hexdigest()[:16]
-    print(f"translate: ok digest={digest} changed={','.join(changed) or '-'}")
+    loops = f" loop-errors={';'.join(k + ': ' + v for k, v in LOOP_ERRORS.items())}" if LOOP_ERRORS else ""
+    print(f"translate: ok digest={digest} changed={','.join(changed) or '-'}{loops}")
     return 0
 
 
